@@ -2062,3 +2062,556 @@ Proof.
   split; [repeat split |].
   intros H. apply (f_equal (@length event)) in H. vm_compute in H. discriminate H.
 Qed.
+
+(* ---------- k_cr changes only by a CR read in a non-IDLE reading state and by reset_state ---------- *)
+Ltac kcr_go := intros; repeat smatch; reflexivity.
+
+Section C20i.
+Variable D : desc.
+Variables ioS muS hS : Type.
+Variable io_read : ioS -> ioS * option N.
+Variable io_write : ioS -> N -> ioS * bool.
+Variable mu_lock : muS -> muS * bool.
+Variable mu_unlock : muS -> muS * bool.
+Variable h_call : hS -> hreq -> hS * hres.
+
+Notation world := (world ioS muS hS).
+Notation step := (step D ioS muS hS io_read io_write mu_lock mu_unlock h_call).
+Notation run := (run D ioS muS hS io_read io_write mu_lock mu_unlock h_call).
+Notation do_op := (do_op D ioS muS hS io_read io_write mu_lock mu_unlock h_call).
+Notation cmd_service := (cmd_service D ioS muS hS io_read io_write mu_lock mu_unlock h_call).
+Notation service_body := (service_body D ioS muS hS io_read io_write mu_lock mu_unlock h_call).
+Notation unsolicited_events_service := (unsolicited_events_service D ioS muS hS io_write mu_lock mu_unlock h_call).
+Notation bracket := (bracket D ioS muS hS mu_lock mu_unlock).
+Notation api_trigger := (api_trigger D ioS muS hS mu_lock mu_unlock).
+Notation api_hold_exit := (api_hold_exit D ioS muS hS mu_lock mu_unlock).
+Notation apply_icall := (apply_icall D ioS muS hS mu_lock mu_unlock).
+Notation call_h := (call_h D ioS muS hS mu_lock mu_unlock h_call).
+Notation busy := (busy ioS muS hS).
+Notation upd_st := (upd_st ioS muS hS).
+Notation logw := (logw ioS muS hS).
+Notation set_st := (set_st ioS muS hS).
+Notation set_io := (set_io ioS muS hS).
+Notation set_mu := (set_mu ioS muS hS).
+Notation set_hs := (set_hs ioS muS hS).
+Notation reading := (reading ioS muS hS io_read).
+Notation st := (Fsm.st ioS muS hS).
+Notation io := (Fsm.io ioS muS hS).
+Notation mu := (Fsm.mu ioS muS hS).
+Notation hs := (Fsm.hs ioS muS hS).
+Notation tr := (Fsm.tr ioS muS hS).
+Notation mkWorld := (Fsm.mkWorld ioS muS hS).
+Notation parse_write_args := (parse_write_args D ioS muS hS mu_lock mu_unlock h_call).
+Notation format_read_args := (format_read_args D ioS muS hS mu_lock mu_unlock h_call).
+Notation process_write_loop := (process_write_loop D ioS muS hS mu_lock mu_unlock h_call).
+Notation process_run_loop := (process_run_loop D ioS muS hS mu_lock mu_unlock h_call).
+Notation process_rt_loop := (process_rt_loop D ioS muS hS mu_lock mu_unlock h_call).
+Notation process_io_write := (process_io_write ioS muS hS io_write).
+Notation unsolicited_process_io_write := (unsolicited_process_io_write ioS muS hS io_write).
+
+Definition crp (g : state -> state) : Prop := forall s, k_cr (k (g s)) = k_cr (k s).
+
+Lemma crp_uleaf g : uleaf g -> crp g.
+Proof. intros U s. rewrite (uleaf_k g s U). reflexivity. Qed.
+Lemma crp_comp g1 g2 : crp g1 -> crp g2 -> crp (fun s => g2 (g1 s)).
+Proof. intros C1 C2 s. rewrite C2, C1. reflexivity. Qed.
+
+Lemma crp_ack_error : crp ack_error. Proof. intros s; reflexivity. Qed.
+Lemma crp_ack_ok : crp ack_ok. Proof. intros s; reflexivity. Qed.
+Lemma crp_enable_hold : crp enable_hold_state. Proof. intros s; reflexivity. Qed.
+Lemma crp_hold_exit st0 : crp (fun s => fst (hold_exit s st0)).
+Proof. intros s. unfold hold_exit. destruct (negb (k_hold (k s))); reflexivity. Qed.
+Lemma crp_fault : crp set_fault_flag. Proof. intros s; reflexivity. Qed.
+
+Lemma crp_print_string f t s : k_cr (k (fst (print_string f s t))) = k_cr (k s).
+Proof.
+  unfold print_string. destruct (print_nstring (get_cur f s) t) as [c ok]. cbn [fst].
+  unfold put_cur. destruct (cu_fault c); destruct f; reflexivity.
+Qed.
+Lemma crp_print_strings f ts s : k_cr (k (fst (print_strings f s ts))) = k_cr (k s).
+Proof.
+  unfold print_strings. destruct (print_pieces (get_cur f s) ts) as [c ok]. cbn [fst].
+  unfold put_cur. destruct (cu_fault c); destruct f; reflexivity.
+Qed.
+Lemma crp_put_cur f c : crp (put_cur f c).
+Proof. intros s. unfold put_cur. destruct (cu_fault c); destruct f; reflexivity. Qed.
+
+Lemma crp_end_with_error f : crp (end_with_error f).
+Proof. intros s. destruct f; reflexivity. Qed.
+Lemma crp_end_with_ok f : crp (end_with_ok f).
+Proof. intros s. destruct f; reflexivity. Qed.
+
+Lemma crp_print_response_test f s : k_cr (k (fst (print_response_test D f s))) = k_cr (k s).
+Proof.
+  unfold print_response_test. destruct (cmd_of D f s) as [c|]; [| reflexivity].
+  destruct (c_descr c) as [d|].
+  - pose proof (crp_print_strings f [nl_chars s; d] s) as H.
+    destruct (print_strings f s [nl_chars s; d]) as [s1 ok]. cbn [fst] in H.
+    destruct ok; cbn [negb fst]; [| exact H].
+    destruct (c_htest c); cbn [fst]; destruct f; exact H.
+  - cbn [negb]. destruct (c_htest c); cbn [fst]; destruct f; reflexivity.
+Qed.
+
+Lemma crp_spft f : crp (start_processing_format_test_args D f).
+Proof.
+  intros s. unfold start_processing_format_test_args.
+  set (s0 := setg_pos f 0 s). assert (H0 : k_cr (k s0) = k_cr (k s)) by (destruct f; reflexivity).
+  destruct (cmd_of D f s0) as [c|]; [| exact H0].
+  pose proof (crp_print_string f (c_name c) s0) as H1.
+  destruct (print_string f s0 (c_name c)) as [s1 ok1]. cbn [fst] in H1.
+  destruct ok1; cbn [negb]; [| rewrite crp_end_with_error, H1; exact H0].
+  pose proof (crp_print_string f [ch_EQ] s1) as H2.
+  destruct (print_string f s1 [ch_EQ]) as [s2 ok2]. cbn [fst] in H2.
+  destruct ok2; cbn [negb]; [| rewrite crp_end_with_error, H2, H1; exact H0].
+  destruct (c_vars c).
+  - pose proof (crp_print_response_test f s2) as H3.
+    destruct (print_response_test D f s2) as [s3 ok3]. cbn [fst] in H3.
+    destruct ok3; [| rewrite crp_end_with_error]; rewrite H3, H2, H1; exact H0.
+  - destruct f; cbn; rewrite H2, H1; exact H0.
+Qed.
+
+Lemma crp_spfr f : crp (start_processing_format_read_args D f).
+Proof.
+  intros s. unfold start_processing_format_read_args.
+  set (s0 := setg_pos f 0 s). assert (H0 : k_cr (k s0) = k_cr (k s)) by (destruct f; reflexivity).
+  destruct (cmd_of D f s0) as [c|]; [| exact H0].
+  pose proof (crp_print_string f (c_name c) s0) as H1.
+  destruct (print_string f s0 (c_name c)) as [s1 ok1]. cbn [fst] in H1.
+  destruct ok1; cbn [negb]; [| rewrite crp_end_with_error, H1; exact H0].
+  pose proof (crp_print_string f [ch_EQ] s1) as H2.
+  destruct (print_string f s1 [ch_EQ]) as [s2 ok2]. cbn [fst] in H2.
+  destruct ok2; cbn [negb]; [| rewrite crp_end_with_error, H2, H1; exact H0].
+  destruct (vars_access_possible c RO).
+  - destruct f; cbn; rewrite H2, H1; exact H0.
+  - destruct (negb (c_hread c)); [rewrite crp_end_with_error | destruct f; cbn]; rewrite H2, H1; exact H0.
+Qed.
+
+Lemma crp_next_format_var f s : k_cr (k (fst (next_format_var D f s))) = k_cr (k s).
+Proof.
+  unfold next_format_var. destruct (cmd_of D f s) as [c|]; [| reflexivity].
+  set (s1 := setg_index f (S (g_index f s)) s).
+  assert (H1 : k_cr (k s1) = k_cr (k s)) by (destruct f; reflexivity).
+  destruct (S (g_index f s) <? length (c_vars c)); [| exact H1].
+  destruct (g_bsz f s1 <=? g_pos f s1); cbn [fst].
+  - rewrite crp_end_with_error. exact H1.
+  - destruct f; cbn; exact H1.
+Qed.
+
+Lemma crp_format_test_args f : crp (format_test_args D f).
+Proof.
+  intros s. unfold format_test_args. destruct (cmd_of D f s) as [c|]; [| reflexivity].
+  destruct (nth_error (c_vars c) (g_var f s)) as [v|]; [| reflexivity].
+  destruct (fmt_info v (get_cur f s)) as [c1 ok].
+  pose proof (crp_put_cur f c1 s) as H1. set (s1 := put_cur f c1 s) in *.
+  destruct ok; cbn [negb]; [| rewrite crp_end_with_error; exact H1].
+  pose proof (crp_next_format_var f s1) as H2.
+  destruct (next_format_var D f s1) as [s2 handled]. cbn [fst] in H2.
+  destruct handled; [rewrite H2; exact H1|].
+  pose proof (crp_print_response_test f s2) as H3.
+  destruct (print_response_test D f s2) as [s3 ok3]. cbn [fst] in H3.
+  destruct ok3; [| rewrite crp_end_with_error]; rewrite H3, H2; exact H1.
+Qed.
+
+Lemma crp_fra_post f v c : crp (fra_post D f v c).
+Proof.
+  intros s. unfold fra_post. destruct (nth_error (mem s) (v_slot v)) as [data|]; [| reflexivity].
+  destruct (fmt_var v data (get_cur f s)) as [c1 ok].
+  pose proof (crp_put_cur f c1 s) as H1. set (s1 := put_cur f c1 s) in *.
+  destruct ok; cbn [negb]; [| rewrite crp_end_with_error; exact H1].
+  pose proof (crp_next_format_var f s1) as H2.
+  destruct (next_format_var D f s1) as [s2 handled]. cbn [fst] in H2.
+  destruct handled; [rewrite H2; exact H1|].
+  destruct (c_hread c); destruct f; cbn; rewrite H2; exact H1.
+Qed.
+
+Lemma crp_start_print_cmd_list : crp (start_print_cmd_list D).
+Proof. intros s. unfold start_print_cmd_list. destruct (ncmds D =? 0); reflexivity. Qed.
+
+Lemma crp_apply_edit f e : crp (apply_edit f e).
+Proof.
+  intros s. unfold apply_edit. destruct e as [t|]; [| reflexivity].
+  destruct (length t <? g_bsz f s); [| reflexivity]. apply crp_put_cur.
+Qed.
+
+Lemma crp_rt_branch rd f code : crp (rt_branch D rd f code).
+Proof.
+  intros s. unfold rt_branch.
+  destruct (code =? RC_OK)%Z; [apply crp_end_with_ok|].
+  destruct (code =? RC_DATA_OK)%Z; [destruct f; reflexivity|].
+  destruct (code =? RC_DATA_NEXT)%Z; [destruct rd, f; reflexivity|].
+  destruct (code =? RC_NEXT)%Z; [destruct rd; [apply crp_spfr | apply crp_spft]|].
+  destruct (code =? RC_HOLD)%Z; [reflexivity|].
+  destruct (code =? RC_HOLD_EXIT_OK)%Z; [rewrite crp_end_with_ok; apply (crp_hold_exit ST_OK)|].
+  destruct (code =? RC_HOLD_EXIT_ERROR)%Z; [rewrite crp_end_with_error; apply (crp_hold_exit ST_ERROR)|].
+  destruct ((code =? RC_PRINT_CMD_LIST_OK)%Z && negb rd).
+  - destruct f; [apply crp_start_print_cmd_list | apply crp_end_with_ok].
+  - apply crp_end_with_error.
+Qed.
+Lemma crp_rt_post rd f e code : crp (rt_post D rd f e code).
+Proof. intros s. rewrite rt_post_eq, crp_rt_branch. apply crp_apply_edit. Qed.
+
+Lemma crp_post_write_loop code : crp (post_write_loop code).
+Proof. intros s. unfold post_write_loop. repeat smatch; reflexivity. Qed.
+Lemma crp_post_run_loop code : crp (post_run_loop D code).
+Proof.
+  intros s. unfold post_run_loop.
+  destruct ((code =? RC_OK)%Z || (code =? RC_DATA_OK)%Z); [reflexivity|].
+  destruct ((code =? RC_DATA_NEXT)%Z || (code =? RC_NEXT)%Z); [reflexivity|].
+  destruct (code =? RC_HOLD)%Z; [reflexivity|].
+  destruct (code =? RC_PRINT_CMD_LIST_OK)%Z; [apply crp_start_print_cmd_list | reflexivity].
+Qed.
+Lemma crp_pwa_post c comma : crp (pwa_post c comma).
+Proof. intros s. unfold pwa_post. cbv zeta. repeat smatch; reflexivity. Qed.
+
+Lemma crp_set_cmd_state i v : crp (fun s => set_cmd_state s i v).
+Proof. intros s. unfold set_cmd_state. destruct (nth_error (cbuf s) (i / 4)); reflexivity. Qed.
+
+Lemma crp_uc_mark c cs : crp (uc_mark c cs).
+Proof.
+  intros s. unfold uc_mark. cbv zeta.
+  repeat smatch; try reflexivity; try exact (crp_set_cmd_state _ _ s).
+Qed.
+Lemma crp_update_command : crp (update_command D).
+Proof.
+  intros s. rewrite update_command_eq.
+  destruct (cmd_by_index (d_groups D) (k_index (k s))) as [c|]; [| reflexivity].
+  destruct (get_cmd_state D s (k_index (k s))) as [cs|]; [| reflexivity].
+  rewrite <- (crp_uc_mark c cs s). unfold uc_tail. cbv zeta. repeat smatch; reflexivity.
+Qed.
+Lemma crp_search_command : crp (search_command D).
+Proof.
+  intros s. unfold search_command. cbv zeta.
+  destruct (get_cmd_state D s (k_index (k s))) as [cs|]; [| reflexivity].
+  repeat smatch; reflexivity.
+Qed.
+Lemma crp_command_found : crp (command_found D).
+Proof.
+  intros s. unfold command_found. destruct (cmd_of D ATCMD s) as [c|]; [| reflexivity].
+  destruct (k_type (k s)); try reflexivity.
+  - repeat smatch; reflexivity.
+  - destruct (c_only_test c); [reflexivity | apply crp_spfr].
+  - cbv zeta. destruct (cbuf (setk_length 0 s)); reflexivity.
+Qed.
+Lemma crp_process_hold_state : crp process_hold_state.
+Proof. intros s. unfold process_hold_state. repeat smatch; reflexivity. Qed.
+Lemma crp_process_io_write_wait : crp process_io_write_wait.
+Proof. intros s. unfold process_io_write_wait. repeat smatch; reflexivity. Qed.
+Lemma crp_iow_done : crp iow_done.
+Proof. intros s. unfold iow_done. cbv zeta. repeat smatch; reflexivity. Qed.
+
+Lemma crp_pcl_next : crp (pcl_next D).
+Proof. intros s. unfold pcl_next, cmd_list_next_cmd. cbv zeta. repeat smatch; reflexivity. Qed.
+Lemma crp_pcl_form c avail suffix next : crp (pcl_form c avail suffix next).
+Proof.
+  intros s. unfold pcl_form, print_cmd_form. destruct avail; [| reflexivity].
+  set (s1 := setk_position 0 s). unfold print_current_cmd_full_name.
+  destruct (k_length (k s1) =? 0).
+  - pose proof (crp_print_string ATCMD (nl_chars s1) s1) as H1.
+    destruct (print_string ATCMD s1 (nl_chars s1)) as [s' ok]. cbn [fst] in H1.
+    destruct ok; cbn [negb].
+    + set (s2 := setk_length 1 s').
+      pose proof (crp_print_strings ATCMD [txt_AT; c_name c; suffix; nl_chars s2] s2) as H2.
+      destruct (print_strings ATCMD s2 [txt_AT; c_name c; suffix; nl_chars s2]) as [s3 ok3]. cbn [fst] in H2.
+      destruct ok3; cbn [negb]; cbn; rewrite H2; exact H1.
+    + cbn. exact H1.
+  - cbn [negb].
+    pose proof (crp_print_strings ATCMD [txt_AT; c_name c; suffix; nl_chars s1] s1) as H2.
+    destruct (print_strings ATCMD s1 [txt_AT; c_name c; suffix; nl_chars s1]) as [s3 ok3]. cbn [fst] in H2.
+    destruct ok3; cbn [negb]; cbn; rewrite H2; reflexivity.
+Qed.
+Lemma crp_print_cmd_list : crp (print_cmd_list D).
+Proof.
+  intros s. rewrite print_cmd_list_eq.
+  destruct (cmd_by_index (d_groups D) (k_index (k s))) as [c|]; [| reflexivity].
+  set (s1 := setk_cmd (Some (k_index (k s))) s). change (k_cr (k s)) with (k_cr (k s1)).
+  unfold pcl_body. destruct (k_type (k s1)); try apply crp_pcl_form; try apply crp_pcl_next.
+  unfold pcl_none. destruct (is_command_disable D s1 (k_index (k s))); [apply crp_pcl_next | reflexivity].
+Qed.
+
+Notation kst w := (k_state (k (st w))).
+Notation kcr w := (k_cr (k (st w))).
+
+Definition crw (w w' : world) : Prop := kcr w' = kcr w.
+
+Lemma bracket_crw body w : (forall a, crw a (fst (body a))) -> crw w (fst (bracket w body)).
+Proof.
+  intros Hb. unfold Fsm.bracket, crw. destruct (d_mutex D); [| apply Hb].
+  destruct (mu_lock (mu w)) as [m1 ok]. destruct ok; cbn [negb]; [| reflexivity].
+  pose proof (Hb (logw (ELock true) (set_mu m1 w))) as H. unfold crw in H.
+  destruct (body (logw (ELock true) (set_mu m1 w))) as [w' r]. cbn [fst] in H.
+  destruct (mu_unlock (mu w')) as [m2 ok2]. destruct ok2; cbn [negb fst]; exact H.
+Qed.
+Lemma api_trigger_crw ci t w : crw w (fst (api_trigger w ci t)).
+Proof.
+  unfold Fsm.api_trigger. apply bracket_crw. intros a. unfold crw.
+  pose proof (uleaf_k _ (st a) (ul_push D ci t)) as H. cbv beta in H.
+  destruct (push_unsolicited_cmd D (st a) ci t) as [sa ra]. cbn [fst] in H. cbn. rewrite H. reflexivity.
+Qed.
+Lemma api_hold_exit_crw status w : crw w (fst (api_hold_exit w status)).
+Proof.
+  unfold Fsm.api_hold_exit. apply bracket_crw. intros a. unfold crw.
+  pose proof (crp_hold_exit status (st a)) as H. cbv beta in H.
+  destruct (hold_exit (st a) status) as [sa ra]. cbn [fst] in H. cbn. exact H.
+Qed.
+Lemma apply_icall_crw c w : crw w (apply_icall w c).
+Proof.
+  unfold Fsm.apply_icall. destruct c as [ci t | status].
+  - pose proof (api_trigger_crw ci t w) as H. destruct (api_trigger w ci t) as [a ra]. exact H.
+  - pose proof (api_hold_exit_crw status w) as H. destruct (api_hold_exit w status) as [a ra]. exact H.
+Qed.
+Lemma fold_icalls_crw cs : forall w, crw w (fold_left apply_icall cs w).
+Proof.
+  induction cs as [|c r IH]; intros w; cbn [fold_left]; [reflexivity|].
+  unfold crw in *. rewrite IH. apply apply_icall_crw.
+Qed.
+Lemma call_h_crw q w : crw w (fst (call_h w q)).
+Proof.
+  unfold Fsm.call_h. destruct (h_call (hs w) q) as [hs' r]. cbn [fst].
+  unfold crw. rewrite fold_icalls_crw. cbn.
+  rewrite (uleaf_k _ _ (ul_fold_pokes (r_pokes r))). reflexivity.
+Qed.
+
+Lemma busy_upd_crw g w : crp g -> crw w (fst (busy (upd_st g w))).
+Proof. intros C. unfold crw. cbn. apply C. Qed.
+
+Lemma process_rt_loop_crw rd f w : crw w (fst (process_rt_loop rd f w)).
+Proof.
+  unfold Fsm.process_rt_loop. cbv zeta.
+  destruct (g_cmd f (st w)) as [ci|]; [| apply busy_upd_crw, crp_fault].
+  match goal with |- context [call_h w ?q] =>
+    pose proof (call_h_crw q w) as H; destruct (call_h w q) as [w1 r] end.
+  cbn [fst] in H. unfold crw in *. rewrite <- H.
+  apply (busy_upd_crw (rt_post D rd f (r_edit r) (r_code r))), crp_rt_post.
+Qed.
+
+Lemma format_read_args_crw f w : crw w (fst (format_read_args f w)).
+Proof.
+  unfold Fsm.format_read_args. cbv zeta.
+  destruct (g_cmd f (st w)) as [ci|]; [| apply busy_upd_crw, crp_fault].
+  destruct (cmd_of D f (st w)) as [c|]; [| apply busy_upd_crw, crp_fault].
+  destruct (nth_error (c_vars c) (g_var f (st w))) as [v|]; [| apply busy_upd_crw, crp_fault].
+  destruct (v_hread v).
+  - match goal with |- context [call_h w ?q] =>
+      pose proof (call_h_crw q w) as H; destruct (call_h w q) as [w1 r] end.
+    cbn [fst] in H. unfold crw in *. rewrite <- H.
+    destruct (negb (r_code r =? 0)%Z).
+    + apply (busy_upd_crw (end_with_error f)), crp_end_with_error.
+    + apply (busy_upd_crw (fra_post D f v c)), crp_fra_post.
+  - apply (busy_upd_crw (fra_post D f v c)), crp_fra_post.
+Qed.
+
+Lemma unsolicited_process_io_write_crw w : crw w (fst (unsolicited_process_io_write w)).
+Proof.
+  unfold Fsm.unsolicited_process_io_write. cbv zeta.
+  destruct (wbuf_char _ _ _) as [ch|]; [| apply busy_upd_crw, crp_fault].
+  destruct (ch =? 0)%N.
+  - apply (busy_upd_crw uiow_done), crp_uleaf, ul_uiow_done.
+  - destruct (io_write (io w) ch) as [io' ok]. destruct ok; reflexivity.
+Qed.
+
+(* (A) the event machine never changes k_cr *)
+Theorem ues_cr : forall w, kcr (fst (unsolicited_events_service w)) = kcr w.
+Proof.
+  intros w. unfold Fsm.unsolicited_events_service.
+  destruct (u_state (u (st w))).
+  - destruct (negb (ring_empty (st w))); [| reflexivity].
+    destruct (ring_items D (st w)); unfold Fsm.busy, Fsm.upd_st, Fsm.set_st, Fsm.logw; cbn [fst Fsm.st];
+      apply (crp_uleaf _ (ul_check_unsolicited_buffers D)).
+  - apply format_read_args_crw.
+  - apply (busy_upd_crw (format_test_args D UNSOL)), crp_format_test_args.
+  - apply process_rt_loop_crw.
+  - apply process_rt_loop_crw.
+  - apply (busy_upd_crw unsolicited_process_io_write_wait), crp_uleaf, ul_upiww.
+  - apply unsolicited_process_io_write_crw.
+  - apply (busy_upd_crw unsolicited_reset_state), crp_uleaf, ul_unsolicited_reset_state.
+  - apply (busy_upd_crw (end_with_ok UNSOL)), crp_end_with_ok.
+  - apply (busy_upd_crw (start_processing_format_read_args D UNSOL)), crp_spfr.
+  - apply (busy_upd_crw (start_processing_format_test_args D UNSOL)), crp_spft.
+Qed.
+
+(* the byte as the command machine sees it *)
+Definition rd_char (X : cstate) (c : N) : N :=
+  if cstate_beq X CS_PARSE_COMMAND_ARGS then c else to_upper c.
+
+Definition cr_event (w : world) : Prop :=
+  In (kst w) cr_reading_states /\
+  exists io' c, io_read (io w) = (io', Some c) /\ rd_char (kst w) c = ch_CR.
+
+Ltac smatch_eqn :=
+  match goal with
+  | |- context [match ?x with _ => _ end] =>
+    lazymatch x with
+    | context [match _ with _ => _ end] => fail
+    | _ => destruct x eqn:?
+    end
+  end.
+
+Ltac rd_cr_fin :=
+  first [ left; reflexivity
+        | right; split; [reflexivity | apply N.eqb_eq; assumption] ].
+
+Lemma rd_step_cr_error ch s : k_state (k s) = CS_ERROR ->
+  k_cr (k (rd_step body_error ch s)) = k_cr (k s) \/
+  (k_cr (k (rd_step body_error ch s)) = true /\ rd_char CS_ERROR ch = ch_CR).
+Proof.
+  intros HX. unfold rd_step, rd_char, body_error. rewrite HX. cbn [cstate_beq negb].
+  repeat smatch_eqn; rd_cr_fin.
+Qed.
+Lemma rd_step_cr_idle ch s : k_state (k s) = CS_IDLE ->
+  k_cr (k (rd_step body_idle ch s)) = k_cr (k s).
+Proof.
+  intros HX. unfold rd_step, body_idle. rewrite HX. cbn [cstate_beq negb].
+  repeat smatch; reflexivity.
+Qed.
+Lemma rd_step_cr_prefix ch s : k_state (k s) = CS_PARSE_PREFIX ->
+  k_cr (k (rd_step body_prefix ch s)) = k_cr (k s) \/
+  (k_cr (k (rd_step body_prefix ch s)) = true /\ rd_char CS_PARSE_PREFIX ch = ch_CR).
+Proof.
+  intros HX. unfold rd_step, rd_char, body_prefix. rewrite HX. cbn [cstate_beq negb].
+  repeat smatch_eqn; rd_cr_fin.
+Qed.
+Lemma rd_step_cr_parse_command ch s : k_state (k s) = CS_PARSE_COMMAND_CHAR ->
+  k_cr (k (rd_step body_parse_command ch s)) = k_cr (k s) \/
+  (k_cr (k (rd_step body_parse_command ch s)) = true /\ rd_char CS_PARSE_COMMAND_CHAR ch = ch_CR).
+Proof.
+  intros HX. unfold rd_step, rd_char, body_parse_command. rewrite HX. cbn [cstate_beq negb].
+  repeat smatch_eqn; rd_cr_fin.
+Qed.
+Lemma rd_step_cr_wait_read ch s : k_state (k s) = CS_WAIT_READ_ACK ->
+  k_cr (k (rd_step body_wait_read ch s)) = k_cr (k s) \/
+  (k_cr (k (rd_step body_wait_read ch s)) = true /\ rd_char CS_WAIT_READ_ACK ch = ch_CR).
+Proof.
+  intros HX. unfold rd_step, rd_char, body_wait_read. rewrite HX. cbn [cstate_beq negb].
+  repeat smatch_eqn; rd_cr_fin.
+Qed.
+Lemma rd_step_cr_wait_test ch s : k_state (k s) = CS_WAIT_TEST_ACK ->
+  k_cr (k (rd_step (body_wait_test D) ch s)) = k_cr (k s) \/
+  (k_cr (k (rd_step (body_wait_test D) ch s)) = true /\ rd_char CS_WAIT_TEST_ACK ch = ch_CR).
+Proof.
+  intros HX. unfold rd_step, rd_char, body_wait_test. rewrite HX. cbn [cstate_beq negb].
+  destruct (to_upper ch =? ch_LF)%N eqn:E1.
+  - left. rewrite crp_spft. cbn [andb]. reflexivity.
+  - cbn [andb]. destruct (to_upper ch =? ch_CR)%N eqn:E2; rd_cr_fin.
+Qed.
+Lemma rd_step_cr_parse_args ch s : k_state (k s) = CS_PARSE_COMMAND_ARGS ->
+  k_cr (k (rd_step (body_parse_args D) ch s)) = k_cr (k s) \/
+  (k_cr (k (rd_step (body_parse_args D) ch s)) = true /\ rd_char CS_PARSE_COMMAND_ARGS ch = ch_CR).
+Proof.
+  intros HX. unfold rd_step, rd_char, body_parse_args. rewrite HX. cbn [cstate_beq negb].
+  cbv zeta. unfold asz.
+  destruct (ch =? ch_LF)%N eqn:E1; cbn [andb].
+  - left. repeat smatch; reflexivity.
+  - destruct (cmd_of D ATCMD (setk_char ch s)) as [c|]; [| left; reflexivity].
+    destruct (ch =? ch_CR)%N eqn:E2; [rd_cr_fin|].
+    left. repeat smatch; reflexivity.
+Qed.
+
+Lemma reading_cr X body w :
+  kst w = X -> In X cr_reading_states ->
+  (forall ch s, k_state (k s) = X ->
+     k_cr (k (rd_step body ch s)) = k_cr (k s) \/
+     (k_cr (k (rd_step body ch s)) = true /\ rd_char X ch = ch_CR)) ->
+  kcr (fst (reading w body)) = kcr w \/ (kcr (fst (reading w body)) = true /\ cr_event w).
+Proof.
+  intros HX Hin Hb. rewrite (reading_eq ioS muS hS io_read).
+  destruct (io_read (io w)) as [io' [c|]] eqn:Hr; [| left; reflexivity].
+  cbn [fst]. destruct (Hb c (st w) HX) as [H | [H1 H2]].
+  - left. exact H.
+  - right. split; [exact H1|]. split; [rewrite HX; exact Hin|].
+    exists io', c. split; [exact Hr | rewrite HX; exact H2].
+Qed.
+
+(* (B) the command machine: k_cr is set only by a CR read in a non-IDLE reading state, and
+   cleared only by reset_state on the way to CS_IDLE *)
+Theorem cmd_service_cr : forall w,
+  let w' := fst (cmd_service w) in
+  kcr w' = kcr w \/
+  (kcr w' = true /\ cr_event w) \/
+  (kcr w' = false /\ kst w = CS_AFTER_RESET /\ kst w' = CS_IDLE).
+Proof.
+  intros w. cbv zeta. unfold Fsm.cmd_service.
+  destruct (kst w) eqn:HX.
+  - destruct (reading_cr CS_ERROR body_error w HX) as [H | H];
+      [cbn; tauto | apply rd_step_cr_error | left; exact H | right; left; exact H].
+  - left. unfold Fsm.process_idle_state. rewrite (reading_eq ioS muS hS io_read).
+    destruct (io_read (io w)) as [io' [c|]]; [| reflexivity]. cbn [fst]. apply rd_step_cr_idle, HX.
+  - destruct (reading_cr CS_PARSE_PREFIX body_prefix w HX) as [H | H];
+      [cbn; tauto | apply rd_step_cr_prefix | left; exact H | right; left; exact H].
+  - destruct (reading_cr CS_PARSE_COMMAND_CHAR body_parse_command w HX) as [H | H];
+      [cbn; tauto | apply rd_step_cr_parse_command | left; exact H | right; left; exact H].
+  - left. apply (busy_upd_crw (update_command D)), crp_update_command.
+  - destruct (reading_cr CS_WAIT_READ_ACK body_wait_read w HX) as [H | H];
+      [cbn; tauto | apply rd_step_cr_wait_read | left; exact H | right; left; exact H].
+  - left. apply (busy_upd_crw (search_command D)), crp_search_command.
+  - left. apply (busy_upd_crw (command_found D)), crp_command_found.
+  - left. apply (busy_upd_crw ack_error), crp_ack_error.
+  - destruct (reading_cr CS_PARSE_COMMAND_ARGS (body_parse_args D) w HX) as [H | H];
+      [cbn; tauto | apply rd_step_cr_parse_args | left; exact H | right; left; exact H].
+  - left. unfold Fsm.parse_write_args. cbv zeta.
+    destruct (g_cmd ATCMD (st w)) as [ci|]; [| apply busy_upd_crw, crp_fault].
+    destruct (cmd_of D ATCMD (st w)) as [c|]; [| apply busy_upd_crw, crp_fault].
+    destruct (nth_error (c_vars c) (k_var (k (st w)))) as [v|]; [| apply busy_upd_crw, crp_fault].
+    destruct (nth_error (mem (st w)) (v_slot v)) as [data|]; [| apply busy_upd_crw, crp_fault].
+    destruct (decode_var v _ data) as [[[pst data'] wsz] n].
+    destruct pst as [| | comma]; [reflexivity | reflexivity |].
+    destruct (v_hwrite v).
+    + match goal with |- context [call_h ?w0 ?q] =>
+        pose proof (call_h_crw q w0) as H; destruct (call_h w0 q) as [w1 r] end.
+      cbn [fst] in H. unfold crw in H. cbn in H.
+      destruct (negb (r_code r =? 0)%Z).
+      * change (kcr (fst (busy (upd_st ack_error w1))) = kcr w). rewrite <- H.
+        apply (busy_upd_crw ack_error), crp_ack_error.
+      * change (kcr (fst (busy (upd_st (pwa_post c comma) w1))) = kcr w). rewrite <- H.
+        apply (busy_upd_crw (pwa_post c comma)), crp_pwa_post.
+    + match goal with |- context [busy (upd_st _ ?w0)] =>
+        change (kcr (fst (busy (upd_st (pwa_post c comma) w0))) = kcr w);
+        rewrite (busy_upd_crw (pwa_post c comma) w0 (crp_pwa_post c comma)) end.
+      reflexivity.
+  - left. apply format_read_args_crw.
+  - destruct (reading_cr CS_WAIT_TEST_ACK (body_wait_test D) w HX) as [H | H];
+      [cbn; tauto | apply rd_step_cr_wait_test | left; exact H | right; left; exact H].
+  - left. apply (busy_upd_crw (format_test_args D ATCMD)), crp_format_test_args.
+  - left. unfold Fsm.process_write_loop. cbv zeta.
+    destruct (g_cmd ATCMD (st w)) as [ci|]; [| apply busy_upd_crw, crp_fault].
+    match goal with |- context [call_h w ?q] =>
+      pose proof (call_h_crw q w) as H; destruct (call_h w q) as [w1 r] end.
+    cbn [fst] in H. unfold crw in H. rewrite <- H.
+    apply (busy_upd_crw (post_write_loop (r_code r))), crp_post_write_loop.
+  - left. apply process_rt_loop_crw.
+  - left. apply process_rt_loop_crw.
+  - left. unfold Fsm.process_run_loop. cbv zeta.
+    destruct (g_cmd ATCMD (st w)) as [ci|]; [| apply busy_upd_crw, crp_fault].
+    match goal with |- context [call_h w ?q] =>
+      pose proof (call_h_crw q w) as H; destruct (call_h w q) as [w1 r] end.
+    cbn [fst] in H. unfold crw in H. rewrite <- H.
+    apply (busy_upd_crw (post_run_loop D (r_code r))), crp_post_run_loop.
+  - left. apply (busy_upd_crw process_hold_state), crp_process_hold_state.
+  - left. apply (busy_upd_crw process_io_write_wait), crp_process_io_write_wait.
+  - left. unfold Fsm.process_io_write. cbv zeta.
+    destruct (wbuf_char _ _ _) as [ch|]; [| apply busy_upd_crw, crp_fault].
+    destruct (ch =? 0)%N.
+    + apply (busy_upd_crw iow_done), crp_iow_done.
+    + destruct (io_write (io w) ch) as [io' ok]. destruct ok; reflexivity.
+  - cbn. unfold reset_state. destruct (k_hold (k (st w))).
+    + left. reflexivity.
+    + right. right. repeat split.
+  - left. apply (busy_upd_crw ack_ok), crp_ack_ok.
+  - left. apply (busy_upd_crw (start_processing_format_read_args D ATCMD)), crp_spfr.
+  - left. apply (busy_upd_crw (start_processing_format_test_args D ATCMD)), crp_spft.
+  - left. apply (busy_upd_crw (print_cmd_list D)), crp_print_cmd_list.
+Qed.
+
+(* (C) no other public operation changes k_cr *)
+Theorem other_ops_cr : forall w o, o <> OService -> kcr (fst (do_op w o)) = kcr w.
+Proof.
+  intros w o Ho. destruct o as [| ci t | status | | | | ci t | f | i b | g b]; cbn [Fsm.do_op];
+    try reflexivity.
+  - exfalso. apply Ho. reflexivity.
+  - apply api_trigger_crw.
+  - apply api_hold_exit_crw.
+  - unfold Fsm.api_is_busy. apply bracket_crw. intros a. reflexivity.
+  - unfold Fsm.api_is_hold. apply bracket_crw. intros a. reflexivity.
+  - unfold Fsm.api_is_full. apply bracket_crw. intros a. reflexivity.
+Qed.
+
+End C20i.
